@@ -134,6 +134,8 @@ inline void m_plans(const Edge& e, const Parsed& P, unsigned props) {
 				m.len = k; for (int i = 0; i < k; ++i) m.plan[i] = rest[i];
 				m.succ &= static_cast<uint8_t>(~clearLater);
 			}
+			// a headless root has no outcome callback to deliver; the plan is cleared all the same
+			if (expectOutcome && !VX_HEAD) { expectOutcome = 0; pm_clear(m); }
 		}
 	};
 	auto apply_pending_clears = [&]() {
@@ -218,8 +220,8 @@ inline void m_plans(const Edge& e, const Parsed& P, unsigned props) {
 	}
 	// ---- C09
 	if (c09) {
-		if (cycle && expectOutcome && !outcomeSeen) flag(C09, "warranted-outcome-missing", e, "%s was warranted and not delivered", METH_NAME[expectOutcome]);
-		if (cycle && activeFailedThisCycle && planNonEmptyAtStep && !(outcomeSeen && expectOutcome == M_PLAN_FAIL)) flag(C09, "failure-not-reported", e, "active state failed with a non-empty plan, planFailed not delivered in this cycle");
+		if (VX_HEAD && cycle && expectOutcome && !outcomeSeen) flag(C09, "warranted-outcome-missing", e, "%s was warranted and not delivered", METH_NAME[expectOutcome]);
+		if (VX_HEAD && cycle && activeFailedThisCycle && planNonEmptyAtStep && !(outcomeSeen && expectOutcome == M_PLAN_FAIL)) flag(C09, "failure-not-reported", e, "active state failed with a non-empty plan, planFailed not delivered in this cycle");
 		if ((e.post.exists != 0) != m.exists) flag(C09, "plan-existence", e, "machine believes a plan %s; a task %s added since activation (raw flag 0x%02x)", e.post.exists ? "exists" : "does not exist", m.exists ? "was" : "was never", e.post.exists);
 		if (e.post.fail != m.fail) flag(C09, "failure-report-lifetime", e, "outstanding failure reports %x, expected %x", e.post.fail, m.fail);
 		if (checkEmptyAfterOutcome && e.post.planlen) flag(C09, "plan-not-empty-after-outcome", e, "%d tasks after the outcome callback returned", e.post.planlen);
@@ -324,6 +326,7 @@ inline void m15(const Edge& e, const Parsed&) {
 	while (i < e.nev) {
 		const Ev& v = e.tr[i];
 		if (v.kind != EV_CB) { ++i; continue; }
+		if (v.meth == M_PLAN_OK || v.meth == M_PLAN_FAIL) { ++i; continue; }   // plan outcome callbacks are not lifecycle events of the property: delivered to the root head itself only
 		const int k = inj_count_of(v.sid);
 		// collect k+1 consecutive callback deliveries of the same (state, method); actions may be interleaved
 		int seq[8]; int n = 0; int j = i;
